@@ -203,10 +203,25 @@ def d2(cx: Cx, ob: Ob) -> None:
                     ob.violate(fn.qualname, where(fn, line), f"given {text}, _prepare returns `{show(t)[:50]}` instead of the object unchanged", detail="object-changed")
 
 
-def loader_ctor(cx: Cx, ob: Ob, m):
-    """Yield (records term, ctx) of the ``cls(records, **kwargs)`` a loader returns."""
+def loader_ctor(cx: Cx, ob: Ob, m, mapping_input: bool = False):
+    """Yield (records term, ctx) of the ``cls(records, **kwargs)`` a loader returns.  With ``mapping_input`` the
+    loader's documented input is a mapping: a path taken only when the (prepared) input is NOT a Mapping / dict
+    serves other kinds of input and is outside what the property speaks about."""
     s = cx.summary(m, ob.id)
+    data_ = ("param", m.params[1].name) if len(m.params) > 1 else None
+
+    def _not_a_mapping(g) -> bool:
+        a_ = g.a
+        if not (g.kind == "guard" and g.b is False and op(a_) == "call" and a_[1] == ("builtin", "isinstance") and len(a_[2]) == 2 and any(x == data_ for x in subterms(a_[2][0]))):
+            return False
+        ts = a_[2][1][1] if op(a_[2][1]) == "tuple" else (a_[2][1],)
+        names = {show(t_).rsplit(".", 1)[-1] for t_ in ts}
+        # `isinstance(x, dict)` alone is narrower than the documented type: other Mappings take this path too
+        return "Mapping" in names and names <= {"Mapping", "dict", "MutableMapping", "Dict"}
+
     for t, ctx in s.returns():
+        if mapping_input and any(_not_a_mapping(g) for g in ctx.guards):
+            continue
         line = ctx.path.out[2] if ctx.path.out else m.node.lineno
         if op(t) == "call" and t[1] in (("param", "cls"), ("cls", CONV)):
             recs = t[2][0] if t[2] else dict(t[3]).get("records")
@@ -245,6 +260,20 @@ def _single_comp(ob: Ob, m, recs, line, kind=("list", "gen"), s=None):
     if op(recs) != "comp" or recs[1] not in kind or len(recs[3]) != 1:
         return None
     tgt, it, ifs = recs[3][0]
+    # a filter that only drops what is not a string (a ``null`` placeholder) drops nothing the property speaks
+    # about: prefix maps and records hold strings
+    tvars = set(tgt[1]) if op(tgt) == "tuple" else {tgt}
+
+    def _outside_domain(c) -> bool:
+        if op(c) == "cmp" and c[1] in ("is not", "!=") and c[2] in tvars and is_const(c[3], None):
+            return True
+        if op(c) == "not" and op(c[1]) == "cmp" and c[1][1] in ("is", "==") and c[1][2] in tvars and is_const(c[1][3], None):
+            return True
+        if op(c) == "call" and c[1] == ("builtin", "isinstance") and len(c[2]) == 2 and c[2][0] in tvars and c[2][1] == ("builtin", "str"):
+            return True
+        return False
+
+    ifs = tuple(c for c in ifs if not _outside_domain(c))
     if ifs:
         ob.violate(m.qualname, where(m, line), f"{m.name} filters its input with `{show(ifs[0])[:60]}`: some listed entries are dropped", witness="e.g. the empty (default-namespace) prefix or falsy values", detail="filter")
     return tgt, it, recs[2]
@@ -257,7 +286,7 @@ def d4(cx: Cx, ob: Ob) -> None:
     # ---- from_prefix_map
     m = cx.model.find_method(ci, "from_prefix_map")
     data = ("param", m.params[1].name)
-    for s, recs, line in loader_ctor(cx, ob, m):
+    for s, recs, line in loader_ctor(cx, ob, m, mapping_input=True):
         ob.site(f"{where(m, line)} {m.qualname}", show(recs)[:80])
         sc = _single_comp(ob, m, recs, line, s=s)
         if sc is None:
@@ -467,6 +496,8 @@ def d4(cx: Cx, ob: Ob) -> None:
             ob.undecide("from_extended_prefix_map record construction not a single comprehension")
             continue
         tgt, it, elt = sc
+        while op(it) == "call" and it[1] in (("builtin", "list"), ("builtin", "tuple")) and len(it[2]) == 1 and not it[3]:
+            it = it[2][0]  # a materialised copy holds the same elements in the same order
         if it != ("call", PREP, (data,), ()):
             ob.violate(m.qualname, where(m, line), f"from_extended_prefix_map iterates `{show(it)[:60]}`", detail="source")
         alts = [elt[2], elt[3]] if op(elt) == "ifexp" else [elt]
@@ -475,6 +506,15 @@ def d4(cx: Cx, ob: Ob) -> None:
                 continue
             if op(a) == "call" and op(a[1]) == "cls" and a[1][1].endswith(".Record") and a[3] == ((None, tgt),) and not a[2]:
                 continue
+            # Record(**{k: v for k, v in record.items() if v is not None}): the same keywords without the ``null``s
+            if op(a) == "call" and op(a[1]) == "cls" and a[1][1].endswith(".Record") and not a[2] and len(a[3]) == 1 and a[3][0][0] is None:
+                dc = a[3][0][1]
+                dc = dc[4] if op(dc) == "new" and len(dc) > 4 else dc
+                if op(dc) == "comp" and dc[1] == "dict" and len(dc[3]) == 1:
+                    dt, dsrc, difs = dc[3][0]
+                    items_of = ("call", ("attr", tgt, "items"), (), ())
+                    if dsrc == items_of and op(dt) == "tuple" and len(dt[1]) == 2 and dc[2] == ("kv", dt[1][0], dt[1][1]) and all(op(c_) == "cmp" and c_[1] in ("is not", "!=") and c_[2] == dt[1][1] and is_const(c_[3], None) for c_ in difs):
+                        continue
             if op(a) == "call" and op(a[1]) == "attr" and a[1][2] == "model_validate" and a[2] == (tgt,):
                 continue
             ob.violate(m.qualname, where(m, line), f"from_extended_prefix_map builds records with `{show(a)[:60]}`, not Record(**record)", detail="element")
@@ -546,6 +586,12 @@ def check_head_tail(ob: Ob, m, line, kw, canon: str, syn: str, seq_expected, wha
         ob.violate(m.qualname, where(m, line), f"`{canon}` is `{show(h)[:50]}`, not the first element of {what}", detail="head")
         return None
     seq = h[1]
+    if op(t) == "new" and len(t) > 4:
+        t = t[4]
+    if op(t) == "comp" and t[1] == "list" and len(t[3]) == 1 and t[2] == t[3][0][0] and all(op(c_) == "cmp" and c_[1] == "!=" and {c_[2], c_[3]} == {t[2], h} for c_ in t[3][0][2]):
+        # the rest without repetitions of the canonical entry: such a repetition is rejected by Record itself
+        # (a synonym equal to the canonical value), so on every input the loader accepted nothing changes
+        t = t[3][0][1]
     if not (op(t) == "slice" and t[1] == seq and is_const(t[2], 1) and is_const(t[3], None) and is_const(t[4], None)):
         ob.violate(m.qualname, where(m, line), f"`{syn}` is `{show(t)[:50]}`, not the rest [1:] of the same sequence as `{canon}`: an entry is dropped or repeated", detail="tail")
         return None
